@@ -86,12 +86,16 @@ def canon_payload(p):
 
 class Plans(object):
     """worker behaviour: per function a list of outcomes indexed by the occurrence count of the
-    same (function, payload) request; the last one repeats.  Records the oracle table."""
+    same (function, payload) request; the last one repeats.  An outcome is ("ok"[, doc-or-None[, delay_ms]]),
+    ("err", name[, message[, delay_ms]]) or ("none",) — the worker never answers.  Records the oracle table:
+    the replies and, for the timed reference semantics, how long each took (read when the oracle is asked
+    for, so that a delay a scenario sets on the Reply afterwards is the one that counts)."""
 
     def __init__(self, plans, delay_ms=10):
         self.plans, self.delay_ms = plans, delay_ms
         self.seen = {}       # (fn, payload text) -> count
         self.table = {}      # fn -> {payload text: (payload, [replies])}
+        self.sent = {}       # fn -> {payload text: [Reply, …]}  (same order as the replies)
 
     def worker(self, fn):
         def plan(n, payload):
@@ -102,22 +106,29 @@ class Plans(object):
             o = outcomes[min(k, len(outcomes) - 1)]
             if o[0] == "ok":
                 doc = {"fn": fn, "v": payload}
-                if len(o) > 1:
+                if len(o) > 1 and o[1] is not None:
                     doc = o[1]
                 r = simmod.Reply("ok", doc, o[2] if len(o) > 2 else self.delay_ms)
             elif o[0] == "none":
-                self.table.setdefault(fn, {}).setdefault(key[1], (payload, []))
-                return simmod.Reply("none")
+                doc = {}
+                r = simmod.Reply("none")
             else:
                 doc = {"errorType": o[1], "errorMessage": o[2] if len(o) > 2 else "m"}
                 r = simmod.Reply("ok", doc, o[3] if len(o) > 3 else self.delay_ms)
             ent = self.table.setdefault(fn, {}).setdefault(key[1], (payload, []))
             ent[1].append(doc)
+            self.sent.setdefault(fn, {}).setdefault(key[1], []).append(r)
             return r
         return plan
 
     def oracle(self):
-        return {fn: [[p, replies] for (p, replies) in ents.values()] for fn, ents in self.table.items()}
+        """{fn: [[payload, [replies], [delay_ms or None (never answered)]], …]}"""
+        def entry(fn, k, p, replies):
+            sent = self.sent.get(fn, {}).get(k)
+            if sent is None or len(sent) != len(replies):       # a table filled in from outside: no delays known
+                return [p, replies]
+            return [p, replies, [None if r.kind == "none" else r.delay_ms for r in sent]]
+        return {fn: [entry(fn, k, p, replies) for k, (p, replies) in ents.items()] for fn, ents in self.table.items()}
 
 
 def mask_cause(x):
@@ -158,10 +169,36 @@ def _js(text):
         return ("unparseable", text)
 
 
-def history_events(history):
-    """an execution history in the form the reference semantics predicts it: [type, name-or-None, detail] per event,
+BASE_EPOCH = 1700000000.0     # sim.BASE_EPOCH: instant 0 of the virtual clock
+
+
+def ms_of(epoch_seconds):
+    """an engine timestamp (epoch seconds on the virtual clock) as milliseconds since the start, to the microsecond
+    (the engine goes through float epoch seconds and ISO texts: differences below that are representation noise)"""
+    return round((epoch_seconds - BASE_EPOCH) * 1000.0, 3)
+
+
+def model_ms(x):
+    """an instant of the model: a number of ms, or the text "num/den" """
+    if isinstance(x, str):
+        a, b = x.split("/")
+        return round(int(a) / int(b), 3)
+    return round(float(x), 3)
+
+
+def history_events(history, timed=False):
+    """an execution history in the form the reference semantics predicts it: [type, name-or-None, detail] per event
+    (with `timed`: [type, name, detail, ms since the start]),
     with the detail fields that are compared (JSON texts parsed, Cause texts masked); the `…Aborted` events of cancelled
     siblings are left out (which siblings were still pending is the schedule's)"""
+    out = _history_events(history)
+    if timed:
+        kept = [h for h in history or [] if not h.get("type", "").endswith("Aborted")]
+        out = [e + [ms_of(h.get("timestamp", 0))] for e, h in zip(out, kept)]
+    return out
+
+
+def _history_events(history):
     out = []
     for h in history or []:
         t = h.get("type", "")
@@ -184,6 +221,8 @@ def history_events(history):
             out.append([t, None, {"output": _js(d.get("output"))}])
         elif t == "LambdaFunctionFailed":
             out.append([t, None, {"error": d.get("error"), "cause": d.get("cause")}])
+        elif t == "LambdaFunctionTimedOut":
+            out.append([t, None, {"error": d.get("error")}])
         elif t in ("MapIterationStarted", "MapIterationFailed", "MapIterationSucceeded"):
             out.append([t, d.get("name"), {"index": d.get("index")}])
         elif t == "MapStateStarted":
@@ -195,14 +234,15 @@ def history_events(history):
     return out
 
 
-def model_events(m):
+def model_events(m, timed=False):
     """the model's `history` in the same form"""
     out = []
-    for t, name, d in m.get("history", []):
+    for ev in m.get("history", []):
+        t, name, d = ev[0], ev[1], ev[2]
         d = mask_cause(d) if isinstance(d, dict) else d
         if t == "ExecutionFailed":
             d = dict(d, cause=_mc(d.get("cause")))
-        out.append([t, name, d])
+        out.append([t, name, d] + ([model_ms(ev[3])] if timed and len(ev) > 3 else []))
     return out
 
 
@@ -245,7 +285,25 @@ def fanout_names(machine):
 FANFAIL_KINDS = ("ExecutionStarted", "ExecutionSucceeded", "ExecutionFailed", "LambdaFunctionSucceeded")
 
 
-def compare_history(machine, m, history, n_requests):
+def oracle_order_ambiguous(m):
+    """A worker's plan answers the n-th request carrying a given payload; the engine counts requests in the order they
+    arrive (time), the reference semantics in the order it evaluates branches (index).  When concurrent branches ask the
+    same function the same question the two orders can differ — visible in the model's own prediction: its
+    LambdaFunctionScheduled events for one (resource, payload), in the order it logged them, are not in time order.
+    Which branch then gets which answer is decided by the engine's arrival order, which the model does not have."""
+    from common import cj
+    last = {}
+    for ev in m.get("history", []):
+        if ev[0] == "LambdaFunctionScheduled" and len(ev) > 3:
+            k = cj([ev[2].get("resource"), ev[2].get("input")])
+            t = model_ms(ev[3])
+            if k in last and t < last[k]:
+                return True
+            last[k] = t
+    return False
+
+
+def compare_history(machine, m, history, n_requests, timed=False, request_instants=None):
     """The engine's complete history against the `history` of `Asl.run` (`m`: the model's outcome).
     Returns (mode, problems, number of engine events compared):
       sequence  no Parallel / Map state was entered: the sequences of [type, name, detail] are equal;
@@ -255,13 +313,20 @@ def compare_history(machine, m, history, n_requests):
                 model's (the model runs every branch to its end); nothing else is compared;
       skipped   the model ran out of fuel / does not support the machine / several branches of a fan-out failed.
     In every compared mode the ids are 1..n with previousEventId = id - 1; in the first two the number of task requests
-    the workers saw equals the model's `requests`.  `…Aborted` events are left out everywhere."""
+    the workers saw equals the model's `requests`.  `…Aborted` events are left out everywhere.
+    `timed` (the canonical schedule: every event is handled the instant it is due): each event also carries its instant
+    (ms on the virtual clock since the start, exact to the microsecond), and `request_instants` — when the workers
+    received their requests — are the instants of the model's LambdaFunctionScheduled events (first two modes)."""
     import collections
     from common import cj
-    if m.get("status") not in ("SUCCEEDED", "FAILED") or m.get("multiFail"):
+    # several branches of one fan-out failed: under the canonical schedule the earliest failure is the fan-out's (unless
+    # two failed at the same instant: `tieFail`); under any other schedule which is handled first is the schedule's
+    if m.get("status") not in ("SUCCEEDED", "FAILED") or m.get("tieFail" if timed else "multiFail"):
         return "skipped", [], 0
-    mine = model_events(m)
-    theirs = history_events(history)
+    if oracle_order_ambiguous(m):
+        return "skipped.oracle_order", [], 0
+    mine = model_events(m, timed)
+    theirs = history_events(history, timed)
     fans = fanout_names(machine)
     probs = numbering_problems(history)
     if m.get("fanFail"):
@@ -288,20 +353,33 @@ def compare_history(machine, m, history, n_requests):
                           "lengths": [len(theirs), len(mine)]})
     if n_requests != m.get("requests"):
         probs.append({"what": "number of task requests", "engine": n_requests, "model": m.get("requests")})
+    if timed and request_instants is not None:
+        want = [e[3] for e in mine if e[0] == "LambdaFunctionScheduled"]
+        got = [round(float(t), 3) for t in request_instants]
+        if (sorted(got) != sorted(want)) if mode == "multiset" else (got != want):
+            probs.append({"what": "the instants at which the workers received their requests", "engine": got[:8], "model": want[:8]})
     return mode, probs, len(theirs)
 
 
-def compare_notifications(m, details, data):
+def compare_notifications(m, details, data, timed=False):
     """The status notifications of the execution (the `detail` of each, in order of publication) against the model's
     `notifications`: the same statuses in the same order — RUNNING carrying the execution's input, then the terminal
     status carrying the output, or the error name with a cause exactly when the Error Output has one."""
     from common import cj
-    if m.get("status") not in ("SUCCEEDED", "FAILED") or m.get("multiFail"):
+    if (m.get("status") not in ("SUCCEEDED", "FAILED") or m.get("tieFail" if timed else "multiFail")
+            or oracle_order_ambiguous(m)):
         return "skipped", []
     want = m.get("notifications", [])
     probs = []
     if [d.get("status") for d in details] != [w[0] for w in want]:
         return "compared", [{"what": "statuses", "engine": [d.get("status") for d in details], "model": [w[0] for w in want]}]
+    if timed and details and "endTime" in m:
+        stop = details[-1].get("stopDate")
+        # the notification carries int(stopDate * 1000) of a float number of epoch seconds: a whole millisecond may come
+        # out one lower (1700000004.005 * 1000 = 1700000004004.9999…); the history's timestamp is compared exactly
+        if stop is None or not (-1.001 <= stop - (BASE_EPOCH * 1000 + model_ms(m["endTime"])) <= 0.001):
+            probs.append({"what": "stopDate of the terminal notification (epoch ms)", "engine": stop,
+                          "model": BASE_EPOCH * 1000 + model_ms(m["endTime"])})
     for d, (st, payload) in zip(details, want):
         if st == "RUNNING":
             if cj(_js(d.get("input"))) != cj(mask_cause(data)) or d.get("output") is not None:
